@@ -19,6 +19,7 @@ var c09Builtins = []string{"string", "length", "substring", "substringBefore", "
 // argument kinds as expression texts over c09Doc (type-chaotic placement)
 var c09Args = []string{
 	"nothing", "n", "0", "-1.5", "s", `""`, `"$99999999999999999999"`, `"0.0e0"`, `"[Y]-[M01]"`, `"+0100"`, "true", "null", "[]", "arr1", "arr2", "{}", "obj1", "$sum", "function($x){$x}", "/a/", "objs", `"#,##0.00"`, "function($a, $b){$b.nothing}",
+	`function($s){{"match": "a", "start": 5, "end": 9, "groups": [], "next": function(){$nothing}}}`, // a hand-written matcher with indexes outside the string
 }
 
 func c09Doc() map[string]interface{} {
@@ -100,7 +101,7 @@ func c09BuiltinExpr(nargs int) string {
 	f := c09Builtins[verifChoose(len(c09Builtins))]
 	arity := verifChoose(4)
 	expr := "$" + f + "("
-	small := []string{"nothing", "n", "s", `"$99999999999999999999"`, "arr1", "obj1", "$sum", "/a/"}
+	small := []string{"nothing", "n", "s", `"$99999999999999999999"`, "arr1", "obj1", "$sum", "/a/", c09Args[len(c09Args)-1]}
 	for i := 0; i < arity; i++ {
 		if i > 0 {
 			expr += ", "
